@@ -180,18 +180,30 @@ struct Driver {
     fs.write(p, "io.stat", "8:0 rbytes=" + std::to_string(plugin == "kill_by_io_cost" ? n.cum : 0) + " wbytes=0 rios=0 wios=0 dbytes=0 dios=0\n");
     fs.write(p, "memory.stat", "anon 4096\nfile 4096\nshmem 0\npgscan " + std::to_string(plugin == "kill_by_pg_scan" ? n.cum : 0) + "\n");
   }
+  int hardPct = 8; // cgroups none of whose processes can be signalled (EPERM): the attempt fails slowly, round after round
   std::vector<int> genPids(const std::string& p) {
     std::vector<int> v;
     int cnt = r.pick(std::vector<int>{0, 0, 1, 1, 2, 3, 3, 25, 45});
+    bool hard = r.chance(hardPct);
     for (int i = 0; i < cnt; i++) {
       int pid = nextPid++;
       v.push_back(pid);
       int x = r.upto(100);
-      pidKind[pid] = x < 70 ? DIES : x < 80 ? SURVIVES : x < 90 ? ESRCH_ : EPERM_;
+      pidKind[pid] = hard ? EPERM_ : x < 70 ? DIES : x < 80 ? SURVIVES : x < 90 ? ESRCH_ : EPERM_;
       pidHome[pid] = p;
     }
     if (r.chance(12)) v.insert(v.begin() + r.upto((int)v.size() + 1), 0);
     return v;
+  }
+  void rollPref(NodeS& n) {
+    n.prefX.clear();
+    int x = r.upto(100);
+    if (x < 12) n.prefX.insert("trusted.oomd_prefer");
+    else if (x < 20) n.prefX.insert("user.oomd_prefer");
+    else if (x < 32) n.prefX.insert("trusted.oomd_avoid");
+    else if (x < 40) n.prefX.insert("user.oomd_avoid");
+    else if (x < 46) { n.prefX.insert("trusted.oomd_avoid"); n.prefX.insert("user.oomd_prefer"); }
+    else if (x < 50) { n.prefX.insert("user.oomd_avoid"); n.prefX.insert("trusted.oomd_prefer"); }
   }
   NodeS genNode(const std::string& p, bool rate) {
     NodeS n;
@@ -236,6 +248,7 @@ int main(int argc, char** argv) {
   for (int scn = firstScn; scn < firstScn + nScn; scn++) {
     Driver D(seed * 7919ULL + scn);
     Rng& r = D.r;
+    D.hardPct = profile == "c07" ? 25 : profile == "c01" || profile == "c03" || profile == "c17" ? 15 : 8;
     I.base = D.fs.base();
     resetScenario();
     Oomd::setStat(Oomd::CoreStats::kKillsKey, 0);
@@ -294,10 +307,14 @@ int main(int argc, char** argv) {
     for (auto& [p, n] : D.w.nodes) {
       if (!r.chance(profile == "c17" ? 75 : 35)) continue;
       int ot = r.pick(std::vector<int>{0, 7}), ou = r.pick(std::vector<int>{0, 3}), kt = r.pick(std::vector<int>{0, 5}), ku = r.pick(std::vector<int>{0, 2});
-      D.fs.setXattr(p, "trusted.oomd_ooms", std::to_string(ot));
-      D.fs.setXattr(p, "user.oomd_ooms", std::to_string(ou));
-      D.fs.setXattr(p, "trusted.oomd_kill", std::to_string(kt));
-      D.fs.setXattr(p, "user.oomd_kill", std::to_string(ku));
+      // a pre-existing value that is not an integer at all (the user.* ones are writable by the cgroup's owner)
+      // reads as 0: the text goes to the file system, the integer reading to the specification
+      static const std::vector<std::string> junk = {"abc", "", "x1", "99999999999999999999", "-"};
+      auto put = [&](const char* name, int& v) {
+        if (r.chance(profile == "c17" ? 12 : 4)) { D.fs.setXattr(p, name, r.pick(junk)); v = 0; }
+        else D.fs.setXattr(p, name, std::to_string(v));
+      };
+      put("trusted.oomd_ooms", ot); put("user.oomd_ooms", ou); put("trusted.oomd_kill", kt); put("user.oomd_kill", ku);
       xj.push_back(J().raw("path", pathChars(p)).num("oomsT", ot).num("oomsU", ou).num("killT", kt).num("killU", ku).done());
     }
 
@@ -457,6 +474,9 @@ int main(int argc, char** argv) {
         for (auto& [p, n] : D.w.nodes) n.sampled = true;
         std::vector<std::string> paths;
         for (auto& [p, n] : D.w.nodes) paths.push_back(p);
+        // kill preference marks of LIVING cgroups change between ticks (set, cleared, prefer <-> avoid)
+        if (r.chance(profile == "c03" ? 60 : 25) && !paths.empty()) { std::string p = r.pick(paths); D.rollPref(D.w.nodes[p]); }
+        if (r.chance(profile == "c03" ? 40 : 10) && !paths.empty()) { std::string p = r.pick(paths); D.rollPref(D.w.nodes[p]); }
         int edits = r.upto(4);
         for (int e2 = 0; e2 < edits && !paths.empty(); e2++) {
           std::string p = r.pick(paths);
